@@ -7,6 +7,10 @@ use super::lexer::{Lexer, Token, TokenKind};
 use grafeo_common::types::Value;
 use grafeo_common::utils::error::{Error, Result};
 
+/// Maximum nesting depth (parentheses, lists, maps, NOT, unary minus, sub-patterns, ...) the
+/// parser accepts.
+const MAX_NESTING_DEPTH: usize = 128;
+
 /// Gremlin parser.
 pub struct Parser<'a> {
     tokens: Vec<Token>,
@@ -14,6 +18,8 @@ pub struct Parser<'a> {
     /// Source string for error reporting.
     #[allow(dead_code)]
     source: &'a str,
+    /// Current nesting depth, see [`MAX_NESTING_DEPTH`].
+    depth: usize,
 }
 
 impl<'a> Parser<'a> {
@@ -25,6 +31,7 @@ impl<'a> Parser<'a> {
             tokens,
             position: 0,
             source,
+            depth: 0,
         }
     }
 
@@ -764,6 +771,10 @@ impl<'a> Parser<'a> {
     /// Parse a sub-traversal (e.g., g.V().has('name', 'Bob'))
     /// Returns the steps as a Vec<Step>
     fn parse_sub_traversal(&mut self) -> Result<Vec<Step>> {
+        self.nested(Self::parse_sub_traversal_inner)
+    }
+
+    fn parse_sub_traversal_inner(&mut self) -> Result<Vec<Step>> {
         // Consume 'g'
         self.expect(TokenKind::G)?;
         self.expect(TokenKind::Dot)?;
@@ -898,6 +909,19 @@ impl<'a> Parser<'a> {
         } else {
             Err(self.error(&format!("Expected {:?}, found {:?}", kind, token.kind)))
         }
+    }
+
+    /// Runs `f` one nesting level deeper.  Input nested more than [`MAX_NESTING_DEPTH`] levels is
+    /// rejected with a syntax error: the parser is a recursive descent and would otherwise
+    /// overflow the stack (which aborts the process) on a few KB of `((((...`.
+    fn nested<T>(&mut self, f: impl FnOnce(&mut Self) -> Result<T>) -> Result<T> {
+        if self.depth >= MAX_NESTING_DEPTH {
+            return Err(self.error("query is nested too deeply"));
+        }
+        self.depth += 1;
+        let result = f(self);
+        self.depth -= 1;
+        result
     }
 
     fn error(&self, message: &str) -> Error {
